@@ -212,6 +212,7 @@ func updateTXTimestamp(clientID string, rxt time.Time, txt *time.Time) {
 	tssMu.Lock()
 	defer tssMu.Unlock()
 
+	txt64in := ntp.Time64FromTime(*txt)
 	if !rxt.Before(*txt) {
 		// ensure strict monotonicity of rx/tx timestamps
 		*txt = rxt
@@ -235,7 +236,7 @@ func updateTXTimestamp(clientID string, rxt time.Time, txt *time.Time) {
 			}
 		}
 		if x != -1 {
-			if tssi.buf[x].txt != txt64 {
+			if tssi.buf[x].txt != txt64in {
 				tssi.buf[x].txt = txt64
 			} else {
 				// No updated tx timestamp available
